@@ -980,12 +980,16 @@ static int stack_compact_range(struct reftable_stack *st, int first, int last,
 			}
 		}
 
+		if (err != 0) {
+			/* not our lock: leave it alone */
+			strbuf_release(&subtab_lock);
+			strbuf_release(&subtab_file_name);
+			goto done;
+		}
+
 		subtable_locks[j] = subtab_lock.buf;
 		delete_on_success[j] = subtab_file_name.buf;
 		j++;
-
-		if (err != 0)
-			goto done;
 	}
 
 	err = unlink(lock_file_name.buf);
